@@ -419,7 +419,7 @@ class IRGenerator:
             raise AssertionError('unhandled type %r' % item)
 
     def _get_base_name(self, input_str, namespace_name):
-        return (input_str.replace('_', '').replace('/', '').lower() +
+        return (input_str.replace('_', '').replace('/', '').lower() + '/' +
                 namespace_name.replace('_', '').lower())
 
     def _add_imports_to_env(self, raw_api):
